@@ -1,0 +1,14 @@
+//go:build verif
+
+// Package veriftrace provides trace points for the verification harness in /verif. With the build
+// tag verif a point forwards to Sink (if set); without it every point is an empty function.
+package veriftrace
+
+// Sink receives the trace points. It is set by the verification harness before any traced code runs.
+var Sink func(point string, args ...any) //nolint:gochecknoglobals
+
+func Point(point string, args ...any) {
+	if sink := Sink; sink != nil {
+		sink(point, args...)
+	}
+}
